@@ -32,6 +32,13 @@ func getController(name string) (*Controller, error) {
 	controllersLock.Lock()
 	defer controllersLock.Unlock()
 
+	// Check again, another goroutine may have started the database while we were
+	// waiting for the lock.
+	controller, ok = controllers[name]
+	if ok {
+		return controller, nil
+	}
+
 	if shuttingDown.IsSet() {
 		return nil, ErrShuttingDown
 	}
